@@ -143,6 +143,16 @@ R14 = {
  "C14": " EAP method type codes, EAP codes, AKA' subtypes and attribute type numbers equal their registry values; the EAP method dispatch is a bijection onto new empty objects; Identity / Notification / Nak decoders skip storing the type-data only when there is none.",
  "C17": " The objects an SA keeps are the library's own: every descriptor Init returns the result of crypto/hmac.New (or nil) and the block cipher of the object NewCrypto builds is the result of crypto/aes.NewCipher - no module type stands in for them (a wrapper could cache a Sum buffer or answer the library's NewCBCEncrypter / SetIV probes and so carry state between messages).",
 }
+# rules added in round 15 (types and package environment)
+R15 = {
+ "C02": " No String / Error / Format method of a module type hands its receiver back to fmt at its own type (a recursion through the library that the call graph does not show, reached from the pre-checksum error messages).",
+ "C03": " Each field carries the full width of its wire slot (encoder layout = RFC layout), since the property's domain is stated in wire terms.",
+ "C04": " No String / Error / Format method of a module type re-enters itself through fmt.",
+ "C09": " Inside the init functions of security/dh a math/big method that writes its receiver is applied only to a number made on the spot (a second init cannot overwrite a registered prime).",
+ "C11": " The typed-nil rule follows the returns of a module callee (a Decode function returning a concrete pointer).",
+ "C12": " Decoder layout = RFC layout for every field: no bit of a wire field is dropped on decode (a field narrower than its slot re-encodes zeros there).",
+ "C14": " No method of the eap package with a struct value receiver assigns to a field of it (a setter on a copy).",
+}
 THOROUGH = " Thorough tier: additionally replays every seeded faulty variant of this property (seeded/<id>-*) on a scratch copy of the current tree and requires it to be reported (exit 2 'SENSITIVITY-LOST' otherwise)"
 BCE = "; and cross-checks the prover's site enumeration against the compiler's unproven bounds checks (-d=ssa/check_bce)"
 
@@ -162,7 +172,7 @@ def main():
             "evidence_file": f"evidence/{pid}.json",
             "replay_cmd_template": "./bin/ikelint -explain {path}",
             "engine": "ikelint",
-            "level_claimed": {"category": c["cat"], "text": c["text"] + EXTRA.get(pid, "") + R14.get(pid, ""), "design_ref": c["ref"] + ", 8"},
+            "level_claimed": {"category": c["cat"], "text": c["text"] + EXTRA.get(pid, "") + R14.get(pid, "") + R15.get(pid, ""), "design_ref": c["ref"] + ", 8"},
             "level_note": c["note"] + THOROUGH + (BCE if pid in ("C02", "C04", "C10") else "") + ".",
             "technique": c["tech"],
         })
